@@ -14,6 +14,7 @@ import (
 	"sort"
 	"strconv"
 	"strings"
+	"syscall"
 	"time"
 
 	"verifsim/gen"
@@ -92,6 +93,14 @@ func drawConfig(r *rand.Rand, ps *PropSpec) world.Config {
 	}
 	cfg.NameChange = r.Intn(2) == 0
 	cfg.FIFO = r.Intn(2) == 0
+	switch x := r.Intn(20); {
+	case x < 3:
+		cfg.NumDNS = -1
+	case x < 12:
+		cfg.NumDNS = 1
+	default:
+		cfg.NumDNS = 2
+	}
 	return cfg
 }
 
@@ -113,9 +122,27 @@ func hashLog(lines []string) uint64 {
 }
 
 // runSeed executes one seeded run.
+var walFile *os.File
+
+func walWrite(v interface{}) {
+	if walFile == nil {
+		return
+	}
+	b, _ := json.Marshal(v)
+	walFile.Write(append(b, '\n'))
+}
+
+// limitMemory caps the address space of a worker so that an allocation proportional to an
+// attacker-chosen number kills the process quickly instead of exhausting the machine.
+func limitMemory() {
+	lim := &syscall.Rlimit{Cur: 8 << 30, Max: 8 << 30}
+	_ = syscall.Setrlimit(syscall.RLIMIT_AS, lim)
+}
+
 func runSeed(seed int64, ps *PropSpec, keepLog bool) (*RunResult, *world.World, error) {
 	r := rand.New(rand.NewSource(seed))
 	cfg := drawConfig(r, ps)
+	walWrite(cfg)
 	w, err := world.NewWorld(cfg)
 	if err != nil {
 		return nil, nil, err
@@ -129,9 +156,10 @@ func runSeed(seed int64, ps *PropSpec, keepLog bool) (*RunResult, *world.World, 
 	for i := 0; i < steps && len(w.Found) == 0; i++ {
 		ev := g.Next()
 		w.Trace = append(w.Trace, ev)
+		walWrite(ev)
 		w.Apply(ev)
 	}
-	if len(w.Found) == 0 {
+	if len(w.Found) == 0 && walFile == nil {
 		w.Trace = append(w.Trace, w.Drain(4*len(w.Pool)+50)...)
 	}
 	if len(w.Found) == 0 && len(w.Pool) > 0 {
@@ -268,7 +296,9 @@ func worker(ps *PropSpec, from, to int64, outPath string, keepHashes bool, maxVi
 	out := &WorkerOut{Outcome: map[string]int{}, Faults: map[string]int{}, Probes: map[string]int{}, DepCalls: make([]int, world.NumDepKinds), Foreign: map[string]int{}, RunHashes: map[string]uint64{}}
 	states := map[uint64]struct{}{}
 	sigs := map[uint64]struct{}{}
+	limitMemory()
 	for seed := from; seed < to; seed++ {
+		_ = os.WriteFile(outPath+".cur", []byte(strconv.FormatInt(seed, 10)), 0o644)
 		res, w, err := runSeed(seed, ps, keepHashes)
 		if err != nil {
 			out.Err = err.Error()
@@ -409,7 +439,25 @@ func main() {
 	verifDir := flag.String("verif", "/verif", "verif directory")
 	hashes := flag.Bool("hashes", false, "record per-run log hashes (determinism self-test)")
 	one := flag.Int64("one", -1, "run one seed verbosely")
+	wal := flag.String("wal", "", "internal: write-ahead log of the events of -one (crash investigation)")
+	inproc := flag.Bool("inproc", false, "internal: apply a replay file in this process without judging the outcome")
 	flag.Parse()
+
+	if *replay != "" && *inproc {
+		limitMemory()
+		b, err := os.ReadFile(*replay)
+		if err != nil {
+			os.Exit(2)
+		}
+		var rf ReplayFile
+		if json.Unmarshal(b, &rf) != nil {
+			os.Exit(2)
+		}
+		if _, err := replayTrace(rf.Config, rf.Events, false); err != nil {
+			os.Exit(2)
+		}
+		return
+	}
 
 	if *replay != "" {
 		os.Exit(doReplay(*replay))
@@ -419,6 +467,16 @@ func main() {
 	if !ok {
 		fmt.Fprintf(os.Stderr, "unknown property %q\n", *prop)
 		os.Exit(2)
+	}
+	if *one >= 0 && *wal != "" {
+		limitMemory()
+		f, err := os.Create(*wal)
+		if err != nil {
+			os.Exit(2)
+		}
+		walFile = f
+		_, _, _ = runSeed(*one, ps, false)
+		return
 	}
 	if *one >= 0 {
 		res, w, err := runSeed(*one, ps, true)
@@ -456,6 +514,19 @@ func doReplay(path string) int {
 	if rf.Property == "C19" {
 		fmt.Fprintln(os.Stderr, "C19 replay files are replayed by the concurrency engine (check C19 --replay)")
 		return 2
+	}
+	if rf.Violation.Clause == "process-death" {
+		self, _ := os.Executable()
+		c := exec.Command(self, "-replay", path, "-inproc")
+		c.Env = append(os.Environ(), "GOMAXPROCS=1")
+		out, err := c.CombinedOutput()
+		if err != nil && (strings.Contains(string(out), "fatal error") || strings.Contains(string(out), "signal:")) {
+			fmt.Printf("reproduced: the process executing the recorded events died: %s\n", firstLine(string(out)))
+			fmt.Printf("VIOLATION property=%s replay=%s\n", rf.Property, path)
+			return 1
+		}
+		fmt.Println("the recorded process death does not occur on this tree")
+		return 0
 	}
 	w, err := replayTrace(rf.Config, rf.Events, true)
 	if err != nil {
@@ -539,7 +610,7 @@ func parent(ps *PropSpec, tier string, seed int64, runs, workers int, verifDir s
 		}
 		c := exec.Command(self, args...)
 		c.Env = append(os.Environ(), "GOMAXPROCS=1")
-		c.Stderr = os.Stderr
+		c.Stderr = nil
 		if err := c.Start(); err != nil {
 			fmt.Fprintln(os.Stderr, "cannot start worker:", err)
 			return 2
@@ -550,9 +621,23 @@ func parent(ps *PropSpec, tier string, seed int64, runs, workers int, verifDir s
 	states := map[uint64]struct{}{}
 	sigs := map[uint64]struct{}{}
 	trouble := ""
+	deaths := 0
+	deathReplay, deathDetail := "", ""
 	for _, j := range jobs {
 		err := j.cmd.Wait()
 		if err != nil {
+			// a dead worker: find out whether the seed it was executing kills the process reproducibly
+			curB, _ := os.ReadFile(j.out + ".cur")
+			cur, perr := strconv.ParseInt(strings.TrimSpace(string(curB)), 10, 64)
+			if perr == nil {
+				if p, d := investigateDeath(self, ps, cur, tmp, verifDir); p != "" {
+					deaths++
+					if deathReplay == "" {
+						deathReplay, deathDetail = p, d
+					}
+					continue
+				}
+			}
 			trouble = fmt.Sprintf("worker failed: %v", err)
 			continue
 		}
@@ -609,6 +694,15 @@ func parent(ps *PropSpec, tier string, seed int64, runs, workers int, verifDir s
 	if trouble != "" {
 		fmt.Fprintln(os.Stderr, "HARNESS TROUBLE:", trouble)
 		return 2
+	}
+	if ps.ID == "C18" {
+		n, notes, bad := enumerateEpochScripts()
+		agg.Probes["epoch-scripts-enumerated"] = n
+		agg.Probes["epoch-script-notifications"] = notes
+		agg.EpochEvs += notes
+		if bad != nil {
+			agg.Violating = append(agg.Violating, *bad)
+		}
 	}
 	if hashes {
 		b, _ := json.Marshal(agg.RunHashes)
@@ -679,6 +773,16 @@ func parent(ps *PropSpec, tier string, seed int64, runs, workers int, verifDir s
 		exit = 1
 	}
 
+	if deaths > 0 {
+		nviol += deaths
+		if ps.ID == "C11" {
+			fmt.Printf("violation: [C11] process-death: %s\n", deathDetail)
+			fmt.Printf("VIOLATION property=C11 replay=%s\n", deathReplay)
+			exit = 1
+		} else {
+			agg.Foreign["process-death [C11]"] += deaths
+		}
+	}
 	wall := time.Since(start).Seconds()
 	// coverage holes fail the thorough tier with exit 2 (not a violation)
 	var holes []string
@@ -696,6 +800,74 @@ func parent(ps *PropSpec, tier string, seed int64, runs, workers int, verifDir s
 		return 2
 	}
 	return exit
+}
+
+func firstLine(s string) string {
+	for _, l := range strings.Split(s, "\n") {
+		if strings.Contains(l, "fatal error") || strings.Contains(l, "panic") {
+			return strings.TrimSpace(l)
+		}
+	}
+	if i := strings.Index(s, "\n"); i > 0 {
+		return s[:i]
+	}
+	return s
+}
+
+// investigateDeath re-runs the seed a dead worker was executing with a write-ahead log and turns a
+// reproducible process death into a replay file (C11: the call took the process down).
+func investigateDeath(self string, ps *PropSpec, seed int64, tmp, verifDir string) (string, string) {
+	wal := filepath.Join(tmp, fmt.Sprintf("wal-%d.jsonl", seed))
+	c := exec.Command(self, "-prop", ps.ID, "-one", strconv.FormatInt(seed, 10), "-wal", wal)
+	c.Env = append(os.Environ(), "GOMAXPROCS=1")
+	out, err := c.CombinedOutput()
+	if err == nil {
+		return "", ""
+	}
+	b, rerr := os.ReadFile(wal)
+	if rerr != nil {
+		return "", ""
+	}
+	lines := strings.Split(strings.TrimSpace(string(b)), "\n")
+	if len(lines) < 2 {
+		return "", ""
+	}
+	var cfg world.Config
+	if json.Unmarshal([]byte(lines[0]), &cfg) != nil {
+		return "", ""
+	}
+	var evs []world.Event
+	for _, l := range lines[1:] {
+		var ev world.Event
+		if json.Unmarshal([]byte(l), &ev) == nil {
+			evs = append(evs, ev)
+		}
+	}
+	detail := "the worker process died while executing the last event: " + firstLine(string(out))
+	write := func(e []world.Event) string {
+		rf := ReplayFile{Property: "C11", Seed: seed, Config: cfg, Events: e, OrigLen: len(evs), Violation: FoundJSON{Props: []string{"C11"}, Clause: "process-death", Detail: detail, Event: e[len(e)-1].N}}
+		_ = os.MkdirAll(filepath.Join(verifDir, "replays"), 0o755)
+		path := filepath.Join(verifDir, "replays", fmt.Sprintf("C11-seed%d-death.json", seed))
+		jb, _ := json.MarshalIndent(rf, "", " ")
+		_ = os.WriteFile(path, jb, 0o644)
+		return path
+	}
+	dies := func(path string) bool {
+		c := exec.Command(self, "-replay", path, "-inproc")
+		c.Env = append(os.Environ(), "GOMAXPROCS=1")
+		o, err := c.CombinedOutput()
+		return err != nil && (strings.Contains(string(o), "fatal error") || strings.Contains(string(o), "signal:"))
+	}
+	// minimise: the fatal event alone, else the whole prefix
+	path := write(evs[len(evs)-1:])
+	if dies(path) {
+		return path, detail
+	}
+	path = write(evs)
+	if dies(path) {
+		return path, detail
+	}
+	return "", ""
 }
 
 func firstWords(s string, n int) string {
